@@ -582,6 +582,10 @@ def bottom_row_observation(ck, kind, dn, rng):
 
 # ------------------------------------------------------------------------------- driver
 def run(ck):
+    if ck.shard == 0:
+        # repeat-call monitor (shared, added by the framework owner): history / reused-object / memory-layout independence
+        from .. import repeat
+        repeat.run(ck, PID, repeat.table(PID, ck.rng("repeat")))
     thorough = ck.tier == "thorough"
     rng = ck.rng("c11")
     N = 3000 if thorough else 800
